@@ -265,6 +265,12 @@ func (s *Seq) probeAll(tag, ctx string, assign bool) {
 func (s *Seq) probeLive(lid int, tag, ctx string) {
 	u := s.M.UUID[lid]
 	o := rec0()
+	if (s.step+lid)%2 == 0 {
+		// the object given to Get identifies what to read: nothing else it holds counts
+		Scribble(o)
+		o.M = map[string]int{"left-over": 1}
+		o.MS = map[string]shapes.Line{"left-over": {Name: "x"}}
+	}
 	o.Initialize(u)
 	out, err := s.db.Get(o)
 	if err != nil {
